@@ -31,6 +31,10 @@ run_directed = directed.run
 
 
 def cases(tier, rng):
+    for c in directed.lenient_objects_as_condition_values_cases():
+        yield "directed-lenient-objects-as-condition-values", c
+    for c in directed.async_message_equals_sync_cases():
+        yield "directed-async-message-equals-sync", c
     for c in directed.awaitable_kinds_cases():
         yield "directed-awaitable-kinds", c
     for c in directed.wrapped_async_public_method_cases():
